@@ -48,6 +48,9 @@ pub struct BbCase {
 	/// identifiers whose challenges the CA hands out as already `processing`
 	#[serde(default)]
 	pub processing: Vec<String>,
+	/// the challenge hooks are also listed for storage events (type lists mixing challenge-* with file-post-create / file-post-edit)
+	#[serde(default)]
+	pub mixed_hook_types: bool,
 }
 
 fn id_set() -> impl Strategy<Value = Vec<IdGen>> {
@@ -92,9 +95,9 @@ fn bb_strategy() -> impl Strategy<Value = BbCase> {
 		any::<bool>(),
 		any::<bool>(),
 		proptest::option::weighted(0.4, gen::key_type_strategy()),
-		(proptest::option::weighted(0.2, (proptest::sample::select(vec!["http-01", "dns-01", "tls-alpn-01"]), proptest::sample::select(vec!["exit:1", "exit:2", "exit:255", "kill"]))), proptest::collection::vec(any::<bool>(), 8)),
+		(proptest::option::weighted(0.2, (proptest::sample::select(vec!["http-01", "dns-01", "tls-alpn-01"]), proptest::sample::select(vec!["exit:1", "exit:2", "exit:255", "kill"]))), proptest::collection::vec(any::<bool>(), 8), prop_oneof![2 => Just(false), 1 => Just(true)]),
 	)
-		.prop_map(|(ids, picks, account_key, sh, offer, st, token_len, unknown_challenge, reverse, second_account_key, (fail_hook, proc_mask))| {
+		.prop_map(|(ids, picks, account_key, sh, offer, st, token_len, unknown_challenge, reverse, second_account_key, (fail_hook, proc_mask, mixed_hook_types))| {
 			let mut ids = ids;
 			if reverse {
 				ids.reverse();
@@ -102,7 +105,7 @@ fn bb_strategy() -> impl Strategy<Value = BbCase> {
 			let challenges: Vec<String> = ids.iter().enumerate().map(|(i, id)| super::c01::challenge_for(id, picks[i % picks.len()])).collect();
 			let initial = ids.iter().enumerate().filter(|(i, _)| st[i % st.len()] != "pending").map(|(i, id)| (id.expected.clone(), st[i % st.len()].to_string())).collect();
 			let processing = ids.iter().enumerate().filter(|(i, _)| proc_mask[i % 8] && i % 3 == 0).map(|(_, id)| id.expected.clone()).collect();
-			BbCase { ids, challenges, account_key, authz_shuffle: sh, offer: offer.iter().map(|s| s.to_string()).collect(), initial, token_len, unknown_challenge, second_account_key, fail_hook: fail_hook.map(|(t, b)| (t.to_string(), b.to_string())), processing }
+			BbCase { ids, challenges, account_key, authz_shuffle: sh, offer: offer.iter().map(|s| s.to_string()).collect(), initial, token_len, unknown_challenge, second_account_key, mixed_hook_types: mixed_hook_types && fail_hook.is_none(), fail_hook: fail_hook.map(|(t, b)| (t.to_string(), b.to_string())), processing }
 		})
 }
 
@@ -175,6 +178,19 @@ fn exec_bb_in(case: &BbCase, acmed: &std::path::Path, dir: &std::path::Path) -> 
 		for h in hook_defs.iter_mut() {
 			if h["name"].as_str() == Some(format!("rec-{ty}").as_str()) {
 				h["args"][2] = json!(beh);
+			}
+		}
+	}
+	if case.mixed_hook_types {
+		// a hook may serve several events: the challenge recorders are also called after a file has been created or edited
+		// (those records carry no identifier and are not part of any authorization's trace)
+		for h in hook_defs.iter_mut() {
+			let is_chall = h["type"].as_array().map(|t| t.iter().any(|x| x.as_str().map(|s| s.starts_with("challenge-")).unwrap_or(false))).unwrap_or(false);
+			if is_chall {
+				if let Some(t) = h["type"].as_array_mut() {
+					t.push(json!("file-post-create"));
+					t.push(json!("file-post-edit"));
+				}
 			}
 		}
 	}
@@ -310,6 +326,10 @@ fn exec_bb_in(case: &BbCase, acmed: &std::path::Path, dir: &std::path::Path) -> 
 	}
 	// no challenge hook at all for identifiers outside the list
 	for r in run.records.iter().filter(|r| r.hook_id.starts_with("challenge-") && r.hook_id.ends_with(":c1")) {
+		// (recorders that are also listed for storage events are called for those without challenge data)
+		if case.mixed_hook_types && r.arg("challenge") == Some("") && r.arg("proof") == Some("") {
+			continue;
+		}
 		if !case.ids.iter().any(|i| r.arg("identifier").map(|t| id_matches(i, t)).unwrap_or(false)) {
 			return Outcome::fail("C05:hook-variable-identifier", format!("hook {} ran with identifier {:?}, which is no configured entry{}", r.hook_id, r.arg("identifier"), ctx_txt()));
 		}
@@ -326,6 +346,9 @@ fn exec_bb_in(case: &BbCase, acmed: &std::path::Path, dir: &std::path::Path) -> 
 	}
 	if case.second_account_key.is_some() {
 		classes.push("two-accounts".into());
+	}
+	if case.mixed_hook_types {
+		classes.push("challenge-hooks-also-file-hooks".into());
 	}
 	if case.fail_hook.is_some() {
 		classes.push("challenge-hook-fails".into());
@@ -449,7 +472,7 @@ fn exec_pr(case: &PrCase) -> Outcome {
 }
 
 pub fn run(ctx: &Ctx, rep: &mut Report) {
-	rep.rule = "bb: certificates whose identifiers mix names, names together with their wildcard, IPv4/IPv6, each with its own challenge type; account key of 7 types; CA lists authorizations (shuffled) and challenges in any order, offers all or a subset of types, adds an unknown challenge type, serves some authorizations as valid / invalid / deactivated / expired / revoked; tokens of 16..64 chars. Oracle: for every authorization that must be solved exactly the challenge hook and the clean hook of the type configured for that entry (the *. entry for a wildcard authorization) ran, with challenge/identifier/identifier_tls_alpn/file_name/proof/raw_proof equal to the values recomputed from the JWK the CA has on record; the challenge POST reached the CA after the hook ended; no hook and no POST for valid, non-pending or unsolvable authorizations; outcome as predicted. pr: 20 proofs + 10 reverse-DNS names per case through the daemon's own functions. Non-trivial (bb) = a name together with its wildcard, or >= 2 entries with different challenge types.".into();
+	rep.rule = "bb: certificates whose identifiers mix names, names together with their wildcard, IPv4/IPv6, each with its own challenge type; account key of 7 types; CA lists authorizations (shuffled) and challenges in any order, offers all or a subset of types, adds an unknown challenge type, serves some authorizations as valid / invalid / deactivated / expired / revoked; tokens of 16..64 chars. In a third of the cases the challenge hooks are also listed for file-post-create / file-post-edit (type lists mixing event families). Oracle: for every authorization that must be solved exactly the challenge hook and the clean hook of the type configured for that entry (the *. entry for a wildcard authorization) ran, with challenge/identifier/identifier_tls_alpn/file_name/proof/raw_proof equal to the values recomputed from the JWK the CA has on record; the challenge POST reached the CA after the hook ended; no hook and no POST for valid, non-pending or unsolvable authorizations; outcome as predicted. pr: 20 proofs + 10 reverse-DNS names per case through the daemon's own functions. Non-trivial (bb) = a name together with its wildcard, or >= 2 entries with different challenge types.".into();
 	run_replays::<BbCase>(ctx, rep, "bb", &exec_bb);
 	run_replays::<PrCase>(ctx, rep, "pr", &exec_pr);
 	if ctx.replay.is_some() {
